@@ -6,6 +6,7 @@ package keyid
 //vsym:entry H05_decode_twice
 //vsym:model encoding/json.Marshal m05Marshal
 //vsym:model encoding/json.Unmarshal m05Unmarshal
+//vsym:include C05/s05.go
 //vsym:replay same-harness
 //vsym:expect-cover C05.marshal.ok C05.marshal.refused C05.decode.ok C05.decode.refused C05.decode.version-refused C05.decode.missing-key
 //vsym:bound H05_marshal: all four flags, touch policy (64-bit), usage (64-bit) and version (16-bit) symbolic; strings and the single principal symbolic, all of one common length 0..2 bytes; principals also nil (JSON null)
@@ -18,15 +19,6 @@ import (
 	"errors"
 	"strings"
 )
-
-// the eleven field names of the statement (PROTOCOL / README), independent of requiredKeysByVersion
-var s05Required = []string{"prins", "transID", "reqUser", "reqIP", "reqHost", "isFirefighter", "isHWKey", "isHeadless", "isNonce", "touchPolicy", "ver"}
-
-func s05Consistent(k *KeyID) bool {
-	h := vImplies(k.IsHeadless, vAnd(vAnd(!k.IsHWKey, !k.IsFirefighter), k.TouchPolicy == NeverTouch))
-	n := vImplies(k.IsNonce, vAnd(vAnd(!k.IsFirefighter, !k.IsHeadless), k.TouchPolicy == NeverTouch))
-	return vAnd(h, n)
-}
 
 // ---- JSON model ---------------------------------------------------------
 
@@ -72,6 +64,13 @@ func m05FieldZero(k *KeyID, goName string) bool {
 }
 
 func m05Marshal(v any) ([]byte, error) {
+	// encoding hooks of the value's type are honoured as encoding/json does
+	if m, ok := v.(json.Marshaler); ok {
+		return m.MarshalJSON()
+	}
+	if w := vRetype(v, (*KeyID)(nil)); w != nil {
+		v = w
+	}
 	k, ok := v.(*KeyID)
 	if !ok {
 		panic("m05Marshal: unexpected type")
@@ -95,6 +94,14 @@ func m05Marshal(v any) ([]byte, error) {
 }
 
 func m05Unmarshal(data []byte, v any) error {
+	// decoding hooks of the destination type are honoured as encoding/json does;
+	// inside such a hook the destination is usually a method-less twin type
+	if u, ok := v.(json.Unmarshaler); ok {
+		return u.UnmarshalJSON(data)
+	}
+	if w := vRetype(v, (*KeyID)(nil)); w != nil {
+		v = w
+	}
 	var src *KeyID
 	var present map[string]bool
 	switch {
